@@ -106,15 +106,15 @@ impl World {
     }
 
     pub fn frame_base(&self) -> u64 {
-        small_bits(self.h(3, 0, 0))
+        small_bits(self.h(3, 0, 0)) & self.addr_mask()
     }
 
     pub fn cfa(&self) -> u64 {
-        small_bits(self.h(4, 0, 0))
+        small_bits(self.h(4, 0, 0)) & self.addr_mask()
     }
 
     pub fn tls(&self, index: u64) -> u64 {
-        small_bits(self.h(5, index, 0))
+        small_bits(self.h(5, index, 0)) & self.addr_mask()
     }
 
     pub fn entry_value(&self, expr: &[u8]) -> Value {
@@ -127,15 +127,15 @@ impl World {
     }
 
     pub fn parameter_ref(&self, off: u64) -> u64 {
-        small_bits(self.h(7, off, 0))
+        small_bits(self.h(7, off, 0)) & self.addr_mask()
     }
 
     pub fn relocated(&self, addr: u64) -> u64 {
-        addr.wrapping_add(self.h(8, 0, 0) & 0xffff)
+        addr.wrapping_add(self.h(8, 0, 0) & 0xffff) & self.addr_mask()
     }
 
     pub fn indexed(&self, index: u64, relocate: bool) -> u64 {
-        small_bits(self.h(9, index, relocate as u64))
+        small_bits(self.h(9, index, relocate as u64)) & self.addr_mask()
     }
 
     pub fn wasm(&self, kind: u64, index: u32) -> Value {
